@@ -348,7 +348,10 @@ class Check(PropertyCheck):
             'face/edgecolor, linewidth int/float, fill, font fields, dashed / dash tuples, markers incl. Path markers, '
             'markersize, markeredgewidth, rotation, DS9-style keys, non-DS9 keys) x shared metadata (hoisting) x '
             'inexpressible regions (compound pixel/sky, frames without DS9 name) injected at every position; tiny sizes '
-            'and annulus gaps below the printed precision. Non-trivial = at least one expressible region.')
+            'and annulus gaps below the printed precision; 8% malformed stream (metadata outside the DS9 vocabulary: '
+            'non-integer font size, one-element dash tuple, non-numeric fill/markersize, text or tags containing braces '
+            'or semicolons, colours with spaces ...: correspondence only, no property claim). '
+            'Non-trivial = at least one expressible region.')
     assumptions = [
         'astropy formats sky numbers and all angles (SkyCoord.to_string, Quantity.to_string, Angle.to_string): modelled as a '
         'rounder `sky` with |sky x - x| <= 1/2 10^-p; checked by value on every such number of every case',
@@ -360,12 +363,20 @@ class Check(PropertyCheck):
         'RegularPolygonPixelRegion.to_polygon() (outside the DS9 code) supplies the vertices',
     ]
     validated_only = [
-        'lex (render o) = toRaw o (character level) is NOT a theorem: it is evaluated by the driver on every generated case '
-        '(reply field lex_render) and the real text is compared with the model text',
-        'visual metadata equality at the fixed point beyond the keys covered by ds9_fixed_point (see Props/C09.lean header) '
-        'is checked by the correspondence only',
-        'determinism across interpreter runs (PYTHONHASHSEED) is a run-time comparison of strings (extra_checks)',
-        'astropy number formatting (value within half a unit) is checked per case, not proved',
+        'character level: lex (render o) = toRaw o is NOT a theorem; the driver evaluates it on every generated case '
+        '(reply field lex_render, required whenever the decidable side condition renderSafe holds) and the real text is '
+        'compared with the model text line by line',
+        'ds9_roundtrip is partial correctness: it assumes writer and reader did not raise. That they do not raise is a '
+        'theorem only for lists in the reader normal form (ds9_fixed_point) and for the geometry of any region '
+        '(ds9_reader_accepts_iff); for user-built metadata (fonts, markers, dashes ...) absence of exceptions is checked by '
+        'the correspondence only',
+        'visual metadata (colour, width, font, dash, point, fill, text angle) at the fixed point: ds9_fixed_point covers '
+        'regions whose visual dict is the reader default; other visual keys are compared by the correspondence only '
+        '(second parse vs first parse on every case, and on the bundled .reg files)',
+        'determinism across interpreter runs (PYTHONHASHSEED) is a run-time comparison of strings (extra_checks); the Lean '
+        'part is serialize_order_only_global / serialize_order_irrelevant',
+        'astropy number formatting (value within half a unit; a p-decimal printed as itself) is a hypothesis '
+        '(SkyLaw / SkyFix), checked by value on every sky number and angle of every case',
         'fixed point on the bundled .reg files uses the real code only (their syntax is outside the model lexer: C10)',
     ]
 
@@ -578,6 +589,41 @@ class Check(PropertyCheck):
         return spec
 
     @staticmethod
+    def _malform(rng, spec):
+        def setk(which, k, v):
+            spec[which] = [kv for kv in spec[which] if kv[0] != k] + [[k, v]]
+        c = rng.randrange(12)
+        if c == 0:
+            setk('visual', 'fontname', {'str': 'times'})
+            setk('visual', 'fontsize', pyval(12.5))              # reader: DS9ParserError
+        elif c == 1:
+            setk('visual', 'linestyle', {'dashes': ['0', ['4']]})  # writer: IndexError
+        elif c == 2:
+            setk('visual', 'fill', {'str': 'yes'})                # writer: int('yes')
+        elif c == 3:
+            setk('meta', 'include', {'str': rng.choice(['0', 'no', ''])})
+        elif c == 4:
+            setk('meta', 'tag', {'str': 'abc'})                   # iterated character by character
+        elif c == 5:
+            if spec['cls'] != 'text':
+                setk('meta', 'text', {'str': rng.choice(['a}b', '{lead', 'trail}', '}{', '"q"', "'q'", ' {x} '])})
+            else:
+                spec['text'] = rng.choice(['a}b', '{lead', 'trail}', '"q"'])
+        elif c == 6:
+            setk('meta', 'tag', {'strs': [rng.choice(['a;b', 'x}y', '{z', 'text={q'])]})
+        elif c == 7:
+            setk('visual', 'marker', {'str': 'o'})
+            setk('visual', 'markersize', rng.choice([{'str': 'large'}, pyval(7.5), {'str': '3 4'}]))
+        elif c == 8:
+            setk('visual', 'color', {'str': rng.choice(['light blue', '', 'a=b', '12', '-3'])})
+        elif c == 9:
+            setk('visual', 'fontname', {'str': rng.choice(['Times New', ''])})
+        elif c == 10:
+            setk('visual', 'linewidth', pyval(rng.choice([1e-05, 1e+16, 2.0])))
+        else:
+            setk('meta', rng.choice(['select', 'fixed']), rng.choice([{'bool': True}, {'int': '2'}, {'str': 'x'}]))
+
+    @staticmethod
     def _normalise(spec):
         # a text region's string IS its DS9 label: a different meta['text'] on it is not expressible
         if spec['cls'] == 'text':
@@ -597,7 +643,7 @@ class Check(PropertyCheck):
         return self._region(rng, p, frame=rng.choice(BAD_FRAMES))
 
     def generate(self, rng, tier):
-        n = int(os.environ.get("C09_N", 1000 if tier == "quick" else 40000))
+        n = int(os.environ.get("C09_N", 2000 if tier == "quick" else 15000))
         cases = []
         for i in range(n):
             p = rng.randint(1, 12)
@@ -632,7 +678,14 @@ class Check(PropertyCheck):
                 if rng.random() < 0.1:
                     specs = [s for s in specs if not expressible(s)]
             specs = [self._normalise(s) for s in specs]
-            cases.append({'kind': 'list', 'precision': p, 'regions': specs, 'n': i})
+            kind = 'list'
+            if rng.random() < 0.08:
+                # malformed stream: metadata outside the DS9 vocabulary (only the correspondence is checked)
+                kind = 'malformed'
+                victims = [s for s in specs if expressible(s)]
+                if victims:
+                    self._malform(rng, rng.choice(victims))
+            cases.append({'kind': kind, 'precision': p, 'regions': specs, 'n': i})
         return cases
 
     # ---------------------------------------------------------------- real
@@ -673,11 +726,11 @@ class Check(PropertyCheck):
 
     @staticmethod
     def _cfg(reqs):
-        """testing aid: C09_CFG=1111 (skip, includeInt, orderedGlobal, textVerbatim) makes the driver model a
-        tree with those repairs applied (used with REGIONS_SRC=<patched copy>); default = Impl codeCfg."""
+        """testing aid: C09_CFG=111 (skip, includeInt, orderedGlobal) makes the driver model a tree with those
+        repairs applied (used with REGIONS_SRC=<patched copy>); default = Impl codeCfg."""
         c = os.environ.get('C09_CFG')
         if c:
-            cfg = dict(zip(('skip', 'includeInt', 'orderedGlobal', 'textVerbatim'), (ch == '1' for ch in c)))
+            cfg = dict(zip(('skip', 'includeInt', 'orderedGlobal'), (ch == '1' for ch in c)))
             for r in reqs:
                 r['cfg'] = cfg
         return reqs
@@ -825,6 +878,8 @@ class Check(PropertyCheck):
     # ---------------------------------------------------------------- oracle (real results only)
     def oracle(self, case, real):
         V = []
+        if case.get('kind') == 'malformed':
+            return V      # outside "metadata expressible in DS9": the property makes no claim
         p = case['precision']
         specs = case['regions']
         good_idx = [i for i, s in enumerate(specs) if expressible(s)]
@@ -901,9 +956,10 @@ class Check(PropertyCheck):
             ia, ib = include_sense(ma), include_sense(mb)
             if ia != ib:
                 vals = [dict(map(tuple_kv, r['meta'])).get('include') for r in inp]
+                gm = re.search(r'^global .*?\binclude=(\S+)', text, re.M)
                 bad('include_lost', f'region {i}: include {ma.get("include")} read back as {mb.get("include")}',
                     value=json.loads(ma['include']) if 'include' in ma else None,
-                    all_same=all(v is not None and py_eq(json.loads(v), json.loads(vals[0])) for v in vals))
+                    global_include=gm.group(1) if gm else None)
         # --- fixed point
         if 's2' in real:
             if 'exc' in real['s2']:
@@ -921,10 +977,8 @@ class Check(PropertyCheck):
                     if not (p2['eq'] and same):
                         k = next((i for i, (x, y) in enumerate(zip(sorted_regions(out), sorted_regions(p2['regions'])))
                                   if x != y), None)
-                        inc0 = [dict(map(tuple_kv, r['meta'])).get('include') for r in out]
                         bad('not_fixed_point', f'second parse differs from the first at region {k}: '
                             + fp_diff(out, p2['regions']),
-                            all_excluded=all(v == '{"int": "0"}' for v in inc0),
                             only_include_added=fp_only_include_added(out, p2['regions']),
                             nan_only=same and nan_text,
                             bool_include_written=bool(re.search(r'include=(True|False)', text)))
@@ -936,25 +990,17 @@ class Check(PropertyCheck):
             return kind == 'serialize_exception' and v.get('has_inexpressible') and v.get('exc') in ('KeyError', 'ValueError')
         if fid == 'F4':
             if kind == 'include_lost':
+                # the flag is the bool False, or it is 0 and was hoisted under the spelling of another region's False
                 val = v.get('value') or {}
-                return val == {'bool': False} or (val == {'int': '0'} and v.get('all_same'))
-            # consequences at the fixed point: an unreadable bool include leaves the first parse without the key
-            # (the second parse has the sign default); an all-excluded list hoists include=0 and loses it
-            return kind == 'not_fixed_point' and (v.get('all_excluded') or
-                                                  (v.get('only_include_added') and v.get('bool_include_written')))
+                return val == {'bool': False} or (val == {'int': '0'} and v.get('global_include') == 'False')
+            # consequence at the fixed point: an unreadable bool include leaves the first parse without the key
+            # (the second parse has the sign default)
+            return kind == 'not_fixed_point' and v.get('only_include_added') and v.get('bool_include_written')
         if fid == 'F5':
             return kind == 'nondeterministic' and v.get('only_global_order')
         if fid == 'F19':
             return (kind == 'parse_exception' and v.get('exc') == 'ValueError'
                     and "'text' must be a string" not in v.get('msg', '') and printed_degenerate(v.get('text', '')))
-        if fid == 'F50':
-            val = v.get('value') or {}
-            if kind == 'not_fixed_point':   # the label became float('nan'), which is not equal to itself
-                return bool(v.get('nan_only'))
-            if kind == 'parse_exception':   # a text region's string was read as a number, which the class rejects
-                return v.get('exc') == 'ValueError' and "'text' must be a string" in v.get('msg', '') \
-                    and bool(v.get('numeric_text'))
-            return kind == 'text_changed' and 'str' in val and is_py_float(val['str'])
         return False
 
     def nontrivial(self, case, real):
@@ -966,7 +1012,8 @@ class Check(PropertyCheck):
         f = 'none' if not fr else 'pix' if fr == {'image'} else 'sky1' if len(fr) == 1 else 'mixed'
         b = 'bad' if any(not expressible(s) for s in specs) else 'ok'
         n = len(specs)
-        return f'{f}/{b}/n{"1" if n == 1 else "2-4" if n <= 4 else "5+"}/p{"lo" if case["precision"] <= 4 else "mid" if case["precision"] <= 8 else "hi"}'
+        k = 'malformed/' if case.get('kind') == 'malformed' else ''
+        return f'{k}{f}/{b}/n{"1" if n == 1 else "2-4" if n <= 4 else "5+"}/p{"lo" if case["precision"] <= 4 else "mid" if case["precision"] <= 8 else "hi"}'
 
     # ---------------------------------------------------------------- whole-run checks
     def extra_checks(self, rng, tier):
@@ -1036,9 +1083,7 @@ class Check(PropertyCheck):
                 r3 = p3['regions']
                 if not (len(r2) == len(r3) and all(bool(a == b) for a, b in zip(r2, r3))
                         and sorted_regions([canon(r) for r in r2]) == sorted_regions([canon(r) for r in r3])):
-                    inc0 = [dict(map(tuple_kv, canon(r)['meta'])).get('include') for r in r2]
-                    viol.append({'kind': 'not_fixed_point', 'detail': f'{base} p={p}',
-                                 'all_excluded': all(v == '{"int": "0"}' for v in inc0)})
+                    viol.append({'kind': 'not_fixed_point', 'detail': f'{base} p={p}'})
                 for v in viol:
                     v['detail'] = f'{base} p={p}: ' + v['detail']
                 V += viol
